@@ -158,8 +158,7 @@ pub fn ts_parse_oracle(s: &str) -> Option<Value> {
 
 /// oracle tables for every string that statically occurs in the case
 pub fn oracles_sexp(strings: &BTreeSet<String>, patterns: &BTreeSet<String>) -> String {
-    let key: String = strings.iter().map(|x| x.as_str()).collect::<Vec<_>>().join("\u{1}");
-    let ship = crate::util::ship_facts(&key);
+    let ship = crate::util::ship_facts(crate::util::SITE_EVAL);
     let mut s = String::from("(oracles (fparse");
     for x in strings {
         if !ship { break; }
